@@ -196,14 +196,18 @@ def authenticateG (chk : Bool) (A : AEAD) (b key : Bytes) (d : Decoded) : Res (L
     let pt ← openC A key d.nonce d.ct (some (b.take d.pos))
     ptLoop chk (pt.length + 1) pt d.cookies
 
+/-- `len(pkt.Cookies) != 0 && maxNumCookies(len(uid), len(pkt.Cookies[0].Cookie)) < 1` -/
+def noRoomForCookie (d : Decoded) : Bool :=
+  match d.cookies with
+  | c :: _ => maxNumCookies d.uid.length c.length < 1
+  | [] => false
+
 /-- `ProcessRequest(b, key, &pkt)`. After the fixes it first refuses requests the reply
     encoder could not answer: unique identifier shorter than 32 bytes (F15), or so long
     that not even one cookie fits next to it (F15b). -/
 def processRequestG (chk : Bool) (A : AEAD) (b key : Bytes) (d : Decoded) : Res (List Bytes) :=
   if chk && d.uid.length < 32 then .err .shortUid
-  else if chk && (match d.cookies with
-                  | c :: _ => maxNumCookies d.uid.length c.length < 1
-                  | [] => false) then .err .tooLarge
+  else if chk && noRoomForCookie d then .err .tooLarge
   else authenticateG chk A b key d
 
 def processRequest := processRequestG true
